@@ -630,11 +630,6 @@ Definition cmd_reachable_b (x : ostep) : bool :=
   | None => true
   end.
 
-(* the candidate whose NodeClaim the queue enqueued is still there *)
-Definition head_alive (x : ostep) : Prop :=
-  let '(pre, op, _) := x in
-  forall n c, recon_node op = Some n -> In c (cmds_of pre n) -> n_gone (sn_fact pre (hd 0 (c_cands c))) = false.
-
 (* ------------------------------------------------------------------ guards of the partial theorems *)
 
 (* the deletion of every replacement of the reconciled command that is gone from the API has been
